@@ -298,6 +298,7 @@ def renderPart (rows : Nat) (t : List (String × Val)) (p : String) : Option Str
     match body.toNat? with
     | some k => if k < rows then some s!"n{k}" else none
     | none => none
+  | some 'm' => none   -- m1 … m4: a template that does not parse or fails when executed (harness `tmplPart`)
   | _ => some p
 
 def mapMOpt {α β} (f : α → Option β) : List α → Option (List β)
